@@ -29,6 +29,7 @@ import (
 type Encoder struct {
 	writer     io.Writer
 	clsDefList []ClassDef
+	clsDefTypes []reflect.Type // the Go type each definition was written for
 	nameMap    map[string]string
 	refMap     map[_refKey]int
 	refNum     int // number of lists, maps and objects written so far, i.e. the ordinal of the next one
@@ -53,6 +54,7 @@ func NewEncoder(w io.Writer, np map[string]string) *Encoder {
 func (e *Encoder) Reset(w io.Writer) {
 	e.writer = w
 	e.clsDefList = make([]ClassDef, 0, 11)
+	e.clsDefTypes = make([]reflect.Type, 0, 11)
 	e.refMap = make(map[_refKey]int, 11)
 	e.refNum = 0
 }
